@@ -16,6 +16,7 @@ mod c11;
 mod c04;
 mod c08;
 mod c12;
+mod c10;
 
 use out::Out;
 
@@ -64,6 +65,7 @@ fn main() {
                 "c04" => c04::run(&args, &mut out),
                 "c08" => c08::run(&args, &mut out),
                 "c12" => c12::run(&args, &mut out),
+                "c10" => c10::run(&args, &mut out),
                 s => { eprintln!("unknown stream {s}"); std::process::exit(2); }
             }
             out.write(&args.out);
